@@ -115,14 +115,19 @@ Definition showTables (s : c_state) : string :=
           brack (map (fun q => showN (fst q) ++ ">" ++ showImpl (snd q)) (sort_by (o_table ov)))
       end) (sort_by (st_ds s))).
 
-(** one history -> one line: per operation its observation and the tables after it *)
+(** one history -> one line: per operation its observation and (for operations other than
+    evaluations) the tables after it *)
 Fixpoint show_run (t : itbl) (c : cfg) (fuel : nat) (h : list op) (s : c_state) : list string :=
   match h with
   | [] => []
   | x :: h' =>
       match c_step t c fuel x s with
       | None => ["fuel"]
-      | Some (ob, s1) => (showObs ob ++ "|" ++ showTables s1) :: show_run t c fuel h' s1
+      | Some (ob, s1) =>
+          (match x with
+           | OEval _ _ => showObs ob                           (* evaluations never change a table *)
+           | _ => showObs ob ++ "|" ++ showTables s1
+           end) :: show_run t c fuel h' s1
       end
   end.
 
